@@ -72,6 +72,90 @@ type Ctx struct {
 	Owner interface{}
 }
 
+// Table is a recognised constant lookup: t == Vals[i] when X == Keys[i], Def otherwise.
+type Table struct {
+	X    *Term
+	Keys []uint64
+	Vals []uint64
+	Def  uint64
+}
+
+// AsTable recognises ite(X==k0, v0, ite(X==k1, v1, ... d)) with constant keys, values and default: the shape that
+// indexing a constant table with a symbolic index produces (also after a constant-leaf lifting changed the leaves).
+func (c *Ctx) AsTable(t *Term) (Table, bool) {
+	var tb Table
+	for n := 0; t.Op == OpIte; n++ {
+		cond := t.Args[0]
+		if n > 256 || cond.Op != OpEq || !cond.Args[1].IsConst() || !t.Args[1].IsConst() {
+			return tb, false
+		}
+		if tb.X == nil {
+			tb.X = cond.Args[0]
+		} else if tb.X != cond.Args[0] {
+			return tb, false
+		}
+		tb.Keys = append(tb.Keys, cond.Args[1].Val)
+		tb.Vals = append(tb.Vals, t.Args[1].Val)
+		t = t.Args[2]
+	}
+	if tb.X == nil || !t.IsConst() {
+		return tb, false
+	}
+	tb.Def = t.Val
+	return tb, true
+}
+
+// Dense reports that the keys are 0..n-1 in some order and X cannot exceed n, so that the default is taken for
+// X == n only (or never).
+func (tb Table) Dense() bool {
+	n := len(tb.Keys)
+	seen := make([]bool, n)
+	for _, k := range tb.Keys {
+		if k >= uint64(n) || seen[k] {
+			return false
+		}
+		seen[k] = true
+	}
+	return umax(tb.X) <= uint64(n)
+}
+
+// At returns the table value for a concrete index.
+func (tb Table) At(x uint64) uint64 {
+	for i, k := range tb.Keys {
+		if k == x {
+			return tb.Vals[i]
+		}
+	}
+	return tb.Def
+}
+
+// injective: dense and no value repeated, so that two lookups agree exactly when their indexes do.
+func (tb Table) injective() bool {
+	if !tb.Dense() {
+		return false
+	}
+	seen := map[uint64]bool{tb.Def: true}
+	for _, v := range tb.Vals {
+		if seen[v] {
+			return false
+		}
+		seen[v] = true
+	}
+	return true
+}
+
+func sameTable(a, b Table) bool {
+	if len(a.Keys) != len(b.Keys) || a.Def != b.Def || a.X.W != b.X.W {
+		return false
+	}
+	for i := range a.Keys {
+		if a.Keys[i] != b.Keys[i] || a.Vals[i] != b.Vals[i] {
+			return false
+		}
+	}
+	return true
+}
+
 func NewCtx() *Ctx {
 	c := &Ctx{table: map[string]*Term{}}
 	c.True = c.mk(OpConst, 0, 1, "", nil)
@@ -597,7 +681,12 @@ func umax(t *Term) uint64 {
 	case OpConst:
 		return t.Val
 	case OpZExt:
-		return mask(t.Args[0].W)
+		return umax(t.Args[0])
+	case OpExtract:
+		lo := uint(t.Val)
+		if a := umax(t.Args[0]); lo < 64 && a>>lo <= mask(t.W) {
+			return a >> lo
+		}
 	case OpIte:
 		a, b := umax(t.Args[1]), umax(t.Args[2])
 		if a > b {
@@ -679,6 +768,24 @@ func (c *Ctx) Eq(a, b *Term) *Term {
 	}
 	if a.Op == OpZExt && b.Op == OpZExt && a.Args[0].W == b.Args[0].W {
 		return c.Eq(a.Args[0], b.Args[0])
+	}
+	if (a.Op == OpIte) != (b.Op == OpIte) && a.W > 0 {
+		// table[x] == y: compare y with every table entry, which folds away the entries y cannot take
+		it, o := a, b
+		if b.Op == OpIte {
+			it, o = b, a
+		}
+		if iteConstLeaves(it, iteDepth) {
+			return c.mapIte(it, func(x *Term) *Term { return c.Eq(o, x) })
+		}
+	}
+	if a.Op == OpIte && b.Op == OpIte {
+		// the same injective constant table indexed twice (e.g. two hex digits): compare the indexes
+		if ta, ok := c.AsTable(a); ok && ta.X.W > 0 {
+			if tb, ok := c.AsTable(b); ok && sameTable(ta, tb) && ta.injective() && tb.injective() {
+				return c.Eq(ta.X, tb.X)
+			}
+		}
 	}
 	if a.ID > b.ID && !b.IsConst() {
 		a, b = b, a
